@@ -307,7 +307,7 @@ class NetAddr():
         return res
 
     def _calc_msg_dgram_size(self, msg):
-        res = self._strpad4(len(bytes(msg[0], 'ascii')))  # Address.
+        res = self._strpad4(len(msg[0].encode('utf-8')))  # Address.
         res += self._strpad4(len(msg[1:]) + 1)  # Type tag string.
         for val in msg[1:]:
             if isinstance(val, str):
